@@ -293,6 +293,35 @@ func runC02(c *Ctx) {
 				}
 			}
 		}
+		// the application replaces the retained protected bytes by others (another encoding of the header, a
+		// header taken from elsewhere - the algorithm stays the one of the parsed map): from then on those
+		// bytes are what is verified, signed and emitted
+		if i%3 == 0 {
+			nm := refcbor.NMap(refcbor.NInt(1), refcbor.NInt(alg), refcbor.NInt(int64(70000+i)), refcbor.NBstr(r.Bytes(1+r.Intn(30))))
+			nc := refcbor.Encode(nm)
+			nb := refcbor.NBstr(nc)
+			nb.Width = refcbor.FitWidth(uint64(len(nc)), gen.HeadWidths[(i/3)%5])
+			msg.Headers.RawProtected = refcbor.Encode(nb)
+			msg.Signature = append([]byte{}, mon.FixedSig...)
+			want2 := refcose.Sign1Structure(nc, ext, wm.Payload)
+			v2 := &mon.SpyVerifier{Alg: cose.Algorithm(alg)}
+			if guard(rec, "Sign1.Verify(raw protected replaced)", input, func() { err = msg.Verify(ext, v2) }) {
+				return
+			}
+			rec.Event("raw-protected-replaced-after-decoding")
+			if v2.Calls == 1 && !eqBytes(v2.Last(), want2) {
+				rec.Violate("tbs-mismatch", "sign1/verify/raw-protected-replaced", fmt.Sprintf("after RawProtected was replaced the verifier got %s\nreference %s", hexs(v2.Last()), hexs(want2)), input)
+				return
+			}
+			msg.Signature = nil
+			s2 := &mon.SpySigner{Alg: cose.Algorithm(alg)}
+			if guard(rec, "Sign1.Sign(raw protected replaced)", input, func() { err = msg.Sign(gen.Entropy, ext, s2) }) {
+				return
+			}
+			if s2.Calls == 1 && !eqBytes(s2.Last(), want2) {
+				rec.Violate("tbs-mismatch", "sign1/sign/raw-protected-replaced", fmt.Sprintf("after RawProtected was replaced the signer got %s\nreference %s", hexs(s2.Last()), hexs(want2)), input)
+			}
+		}
 	})
 
 	// ---- (c) COSE_Sign: constructed and wire, every signer position ----
@@ -566,6 +595,13 @@ func runC02(c *Ctx) {
 			}
 		}
 	}
+	// ... and a protected header that is itself very large (a parameter holding 64 KiB / 16 MiB), written with
+	// every head width: the Sig_structure carries it under the shortest head
+	for _, sz := range []int{1 << 16, 1<<24 - 20, 1 << 24, 1<<24 + 1} {
+		for _, wd := range gen.HeadWidths {
+			bigJobs = append(bigJobs, bigJob{sz, wd, "protected", "sign1"})
+		}
+	}
 	bigWorkers := c.Workers
 	if bigWorkers > 4 {
 		bigWorkers = 4 // each job holds several copies of the large field
@@ -587,6 +623,10 @@ func runC02(c *Ctx) {
 		case "sign1":
 			l := gen.RandLayer(r, gen.LayerOpts{Alg: &alg, MaxProt: 3, MaxUnprot: 2, ScramblePct: 40})
 			l.ProtWidth = j.width
+			if j.where == "protected" {
+				payload, ext = []byte("small payload"), []byte("ext")
+				l.ProtMap.Kids = append(l.ProtMap.Kids, refcbor.NInt(int64(880000+i)), refcbor.NBstr(big))
+			}
 			wm := &gen.WSign1{L: l, Payload: payload, Sig: mon.FixedSig, Tagged: true}
 			b := wm.Bytes()
 			var msg cose.Sign1Message
